@@ -89,9 +89,12 @@ TOp ==
   /\ exists' = E.exists /\ file' = E.bytes
   /\ UNCHANGED id /\ l' = l + 1
 
+TCrashed == /\ Is("Crashed")
+            /\ viol' = viol \cup {V("C08", "the log class crashed or hung while executing the sequence")}
+            /\ UNCHANGED <<exists, file, gh, mem, stats, id>> /\ l' = l + 1
 TFlush == /\ l = Len(Tr) + 1
           /\ ndJsonSerialize(IOEnv.VIOL, <<[stats |-> stats, viol |-> SetToSeq(viol)]>>)
           /\ l' = l + 1 /\ UNCHANGED <<exists, file, gh, mem, viol, stats, id>>
-Spec == Init /\ [][TReset \/ TOp \/ TFlush]_vars
+Spec == Init /\ [][TReset \/ TOp \/ TCrashed \/ TFlush]_vars
 TraceAccepted == TLCGet("stats").diameter = Len(Tr) + 2
 =============================================================================
